@@ -13,6 +13,7 @@ UNITS = []
 P = ["""
 struct FlatMapS { size_t n; bool sorted; bool uniq; };     /* the wrapped vector, abstractly: length, sorted by key, one entry per key */
 bool g_present;      /* ghost: the key of this call is present in the map (before the call) */
+bool g_v_lt_last, g_last_lt_v;   /* ghost: how the key of this call compares with the LAST (largest) key of the map: comp(k, last), comp(last, k) */
 size_t g_dups;       /* ghost: entries of an input range beyond the first of each key */
 #define FM_OK(m) ((m)->sorted && (m)->uniq && (m)->n <= ((size_t)1 << 40))
 static inline void std_sort(struct FlatMapS* m) { m->sorted = 1; }
@@ -44,14 +45,16 @@ for k, anchor in enumerate([r'flat_map\(_InputIterator __first, _InputIterator _
       post_pre='void FlatMap_resort_inl(struct FlatMapS* self);\n', inline=['FlatMap_resort_inl'])
 UNITS.append(Unit(name='FlatMap_resort_inl', kind='assumed', src=FM, within=W, anchor=r'void resort\(\)', proto='void FlatMap_resort_inl(struct FlatMapS* self)', contract='', lower=RESORT))
 U('emplace', r'std::pair<iterator, bool> emplace\(Args&&\.\.\. args\)', 'bool FlatMap_emplace(struct FlatMapS* self)',
-  '__CPROVER_requires(__CPROVER_is_fresh(self, sizeof(*self)) && FM_OK(self) && self->n < ((size_t)1 << 40))\n__CPROVER_ensures(FM_OK(self) && (__CPROVER_return_value != 0) == !(g_present != 0) && self->n == __CPROVER_old(self->n) + (g_present ? 0 : 1))\n__CPROVER_assigns(__CPROVER_object_whole(self))',
+  '__CPROVER_requires(__CPROVER_is_fresh(self, sizeof(*self)) && FM_OK(self) && self->n < ((size_t)1 << 40))\n/* strict weak order: not both; equivalent to the last key => present; greater than the last key => absent; empty map => absent */\n__CPROVER_requires(!(g_v_lt_last != 0 && g_last_lt_v != 0) && ((g_v_lt_last == 0 && g_last_lt_v == 0 && self->n >= 1) ==> g_present != 0) && ((g_last_lt_v != 0 || self->n == 0) ==> g_present == 0))\n__CPROVER_ensures(FM_OK(self) && (__CPROVER_return_value != 0) == !(g_present != 0) && self->n == __CPROVER_old(self->n) + (g_present ? 0 : 1))\n__CPROVER_assigns(__CPROVER_object_whole(self))',
   'emplace/insert(pair): inserted (at its sorted position) iff the key was absent; the vector stays sorted with one entry per key; an existing entry is left alone',
   extra=[rx(r'_data\.emplace_back\(std::forward<Args>\(args\)\.\.\.\);', 'self->n++;   /* emplace_back: the candidate sits behind the sorted part */', 1, 1),
          rx(r'value_type& v = _data\.back\(\);\s*auto ee\s*=\s*_data\.end\(\);\s*--ee;', '', 1, 1),
          rx(r'auto __i = std::lower_bound\(_data\.begin\(\), ee, v\.first, value_key_comp\(\)\);', 'bool hit = std_lower_bound_hits(self);   /* on [begin, end-1): the sorted part */', 1, 1),
          rx(r'bool retval = __i == ee \|\| key_comp\(\)\(v\.first, \(\*__i\)\.first\);', 'bool retval = !hit;', 1, 1),
          rx(r'if \(__i != ee\) \{.*?_data\.pop_back\(\);\s*\}', '{ /* move the candidate from the back to its sorted position (or leave it: it is the largest) */ }', 1, 1, flags=re.S),
-         rx(r'_data\.pop_back\(\);', 'self->n--;', 1, 1), rx(r'return std::make_pair\(__i, retval\);', 'return retval;', 1, 1)])
+         rx(r'_data\.pop_back\(\);', 'self->n--;', 1, 1), rx(r'return std::make_pair\(\w+, retval\);', 'return retval;', 1), rx(r'return std::make_pair\(\w+, true\);', 'return 1;', 0), rx(r'return std::make_pair\(\w+, false\);', 'return 0;', 0),
+         # comparisons with the last element / emptiness tests a shortcut might use (the candidate already sits at the back: n was incremented)
+         rx(r'ee == _data\.begin\(\)', '(self->n == 1)', 0), rx(r'key_comp\(\)\(v\.first, \(\*\(ee - 1\)\)\.first\)', '(g_v_lt_last != 0)', 0), rx(r'key_comp\(\)\(\(\*\(ee - 1\)\)\.first, v\.first\)', '(g_last_lt_v != 0)', 0)])
 U('find', r'(?<!const_)iterator find\(const key_type& __x\)', 'bool FlatMap_find(struct FlatMapS* self)',
   '__CPROVER_requires(__CPROVER_is_fresh(self, sizeof(*self)) && FM_OK(self))\n__CPROVER_ensures((__CPROVER_return_value != 0) == (g_present != 0))\n__CPROVER_assigns()',
   'find(k) != end() <=> k is present (lower_bound on a sorted range with one entry per key)',
